@@ -1,4 +1,5 @@
 import VelaVerif.Spec.Requant
+import VelaVerif.Spec.SoftmaxKernel
 /-!
 # Integer reference semantics of quantised TensorFlow Lite operators (specification side)
 
@@ -114,6 +115,13 @@ def addElem (sub : Bool) (a b : Int) (off1 off2 : Int) (leftShift : Nat) (m1 s1 
   let y2 := mbqm x2 m2 s2
   let raw := if sub then y1 - y2 else y1 + y2
   clamp (mbqm raw mo so + outOff) lo hi
+
+/-- quantised SQUARED_DIFFERENCE of one element pair (`reference_integer_ops` / `squared_difference.cc`) -/
+def sqDiffElem (a b : Int) (off1 off2 : Int) (leftShift : Nat) (m1 s1 m2 s2 mo so : Int) (outOff lo hi : Int) : Int :=
+  let y1 := mbqm ((a + off1) * (2 : Int) ^ leftShift) m1 s1
+  let y2 := mbqm ((b + off2) * (2 : Int) ^ leftShift) m2 s2
+  let d := y1 - y2
+  clamp (mbqm (d * d) mo so + outOff) lo hi
 
 def mulElem (a b : Int) (off1 off2 : Int) (mo so : Int) (outOff lo hi : Int) : Int :=
   clamp (mbqm ((a + off1) * (b + off2)) mo so + outOff) lo hi
@@ -483,10 +491,17 @@ def pN (op : OpDef) (g k : Nat) : Nat := (pI op g k).toNat
     0 exact, 1 approximated (within one step), 2 pass-through (memory-only or monotone 1-Lipschitz) -/
 def opClass (g : Graph) (op : OpDef) : Option Nat :=
   match op.kind with
-  | "CONV_2D" | "DEPTHWISE_CONV_2D" | "FULLY_CONNECTED" | "ADD" | "SUB" | "MUL" | "QUANTIZE" | "LEAKY_RELU" | "TRANSPOSE_CONV" => some 0
-  | "MAX_POOL_2D" | "RELU" | "RELU6" | "RELU_N1_TO_1" | "MINIMUM" | "MAXIMUM" | "RESHAPE" | "SQUEEZE" | "EXPAND_DIMS"
-  | "CONCATENATION" | "SPLIT" | "STRIDED_SLICE" | "PAD" => some 2
-  | "LOGISTIC" | "TANH" | "RESIZE_BILINEAR" | "RESIZE_NEAREST_NEIGHBOR" | "MEAN" => some 1
+  | "CONV_2D" | "DEPTHWISE_CONV_2D" | "FULLY_CONNECTED" | "ADD" | "SUB" | "MUL" | "QUANTIZE" | "LEAKY_RELU" | "TRANSPOSE_CONV"
+  | "SQUARED_DIFFERENCE" | "ABS" | "PRELU" => some 0
+  | "HARD_SWISH" => some 1            -- a table-based activation (property text), although the table is exact in practice
+  | "MAX_POOL_2D" | "RELU" | "RELU6" | "RELU_N1_TO_1" | "MINIMUM" | "MAXIMUM" | "RESHAPE" | "SQUEEZE" | "EXPAND_DIMS" => some 2
+  | "CONCATENATION" =>
+    -- inputs quantised like the output are copied; the others are requantised (approximated class)
+    let o := outId op 0
+    some (if op.ins.all (fun i => i < 0 ∨ (g.scales i.toNat == g.scales o ∧ g.zp i.toNat == g.zp o)) then 2 else 1)
+  | "SPLIT" | "STRIDED_SLICE" | "PAD" | "TRANSPOSE" | "SLICE" | "SPLIT_V" | "PACK" | "UNPACK" => some 2
+  | "ARG_MAX" => some 0
+  | "LOGISTIC" | "TANH" | "RESIZE_BILINEAR" | "RESIZE_NEAREST_NEIGHBOR" | "MEAN" | "SOFTMAX" | "EXP" => some 1
   | "AVERAGE_POOL_2D" =>
     -- padding that actually occurs makes the operator one of the documented approximations
     match g.shape (inId op 0) with
@@ -542,6 +557,13 @@ def evalOp (g : Graph) (env : Env) (op : OpDef) : Except String (List Tensor) :=
     let a ← getIn env op 0; let b ← getIn env op 1
     let o := outId op 0
     let f := fun x y => addElem (op.kind == "SUB") x y (-(g.zp (inId op 0))) (-(g.zp (inId op 1))) (pN op 0 2)
+                 (pI op 0 3) (pI op 0 4) (pI op 0 5) (pI op 0 6) (pI op 0 7) (pI op 0 8) (g.zp o) (pI op 0 0) (pI op 0 1)
+    return [← binary a b f]
+  | "SQUARED_DIFFERENCE" =>
+    -- params: lo, hi, left shift, m1, s1, m2, s2, mo, so
+    let a ← getIn env op 0; let b ← getIn env op 1
+    let o := outId op 0
+    let f := fun x y => sqDiffElem x y (-(g.zp (inId op 0))) (-(g.zp (inId op 1))) (pN op 0 2)
                  (pI op 0 3) (pI op 0 4) (pI op 0 5) (pI op 0 6) (pI op 0 7) (pI op 0 8) (g.zp o) (pI op 0 0) (pI op 0 1)
     return [← binary a b f]
   | "MUL" =>
@@ -606,41 +628,169 @@ def evalOp (g : Graph) (env : Env) (op : OpDef) : Except String (List Tensor) :=
             out := out.push (clamp (Float.round v).toInt64.toInt dt.lo dt.hi)
     return [{ shape := [1, OH, OW, C], data := out }]
   | "MEAN" =>
-    -- params: group 0 = reduced axes (of the 4-D input: only H and/or W)
+    -- params: group 0 = reduced axes (resolved, any subset of the dimensions); real-valued mean, requantised
     let a ← getIn env op 0
-    let [n, H, W, C] := a.shape | throw "unsupported:MEAN:rank"
+    let r := a.shape.length
     let axes := (grp op 0).map Int.toNat
-    if n ≠ 1 ∨ axes.any (fun ax => ax ≠ 1 ∧ ax ≠ 2) ∨ axes.isEmpty then throw "unsupported:MEAN:axes"
-    let rh := axes.contains 1
-    let rw := axes.contains 2
+    if axes.isEmpty ∨ axes.any (· ≥ r) then throw "unsupported:MEAN:axes"
     let i := inId op 0
     let o := outId op 0
     let dt := g.dtype o
     match g.scales i, g.scales o with
     | [si], [so] =>
       let ratio := f32ToFloat si / f32ToFloat so
-      let oh := if rh then 1 else H
-      let ow := if rw then 1 else W
-      let cnt := (if rh then H else 1) * (if rw then W else 1)
-      let mut out : Array Int := Array.mkEmpty (oh * ow * C)
-      for oy in [0:oh] do
-        for ox in [0:ow] do
-          for c in [0:C] do
-            let s := sumRange (if rh then H else 1) fun y => sumRange (if rw then W else 1) fun x =>
-              at3 a W C (if rh then y else oy) (if rw then x else ox) c - g.zp i
-            let v := Float.ofInt s / Float.ofNat cnt * ratio
-            out := out.push (clamp ((Float.round v).toInt64.toInt + g.zp o) dt.lo dt.hi)
+      let keptShape := (a.shape.zipIdx).map fun (d, k) => if axes.contains k then 1 else d
+      let redShape := (a.shape.zipIdx).map fun (d, k) => if axes.contains k then d else 1
+      let cnt := prod redShape
+      if cnt = 0 then throw "mean: empty"
+      let n := prod keptShape
+      let mut out : Array Int := Array.mkEmpty n
+      for j in [0:n] do
+        let co := unflatten keptShape j
+        let s := (List.range cnt).foldl (fun (acc : Int) k =>
+          let cr := unflatten redShape k
+          acc + (a.data.getD (flatten a.shape ((co.zip cr).map fun (x, y) => x + y)) 0 - g.zp i)) 0
+        let v := Float.ofInt s / Float.ofNat cnt * ratio
+        out := out.push (clamp ((Float.round v).toInt64.toInt + g.zp o) dt.lo dt.hi)
       let os := g.shape o
       if prod os ≠ out.size then throw "mean: output shape"
       return [{ shape := os, data := out }]
     | _, _ => throw "unsupported:MEAN:quantisation"
+  | "SLICE" =>
+    -- params: group 0 = begin, group 1 = size (resolved)
+    let a ← getIn env op 0
+    return [← slice a ((grp op 0).map Int.toNat) ((grp op 1).map Int.toNat)]
+  | "SPLIT_V" =>
+    -- params: group 0 = [axis], group 1 = sizes (resolved)
+    let a ← getIn env op 0
+    let axis := pN op 0 0
+    let sizes := (grp op 1).map Int.toNat
+    if axis ≥ a.shape.length ∨ sizes.foldl (· + ·) 0 ≠ a.shape.getD axis 0 then throw "split_v: sizes"
+    let starts := sizes.foldl (fun (acc : List Nat × Nat) sz => (acc.1 ++ [acc.2], acc.2 + sz)) ([], 0)
+    (starts.1.zip sizes).mapM fun (st, sz) =>
+      slice a ((List.replicate a.shape.length 0).set axis st) (a.shape.set axis sz)
+  | "PACK" =>
+    -- params: axis (resolved): the inputs, each with a new dimension of extent 1 at `axis`, concatenated there
+    let ts ← (List.range op.ins.length).mapM fun k => getIn env op k
+    let axis := pN op 0 0
+    let t0 :: _ := ts | throw "pack: no inputs"
+    if axis > t0.shape.length then throw "pack: axis"
+    let ts' := ts.map fun t => { t with shape := (t.shape.take axis) ++ [1] ++ (t.shape.drop axis) }
+    return [← concat ts' axis]
+  | "UNPACK" =>
+    -- params: axis (resolved), count
+    let a ← getIn env op 0
+    let axis := pN op 0 0
+    let num := pN op 0 1
+    if axis ≥ a.shape.length ∨ a.shape.getD axis 0 ≠ num then throw "unpack: axis / count"
+    (List.range num).mapM fun k => do
+      let t ← slice a ((List.replicate a.shape.length 0).set axis k) (a.shape.set axis 1)
+      pure { t with shape := a.shape.eraseIdx axis }
+  | "PRELU" =>
+    -- params: identity multiplier, shift, alpha multiplier, shift (`reference_ops::BroadcastPrelu4DSlow`)
+    let a ← getIn env op 0; let al ← getIn env op 1
+    let o := outId op 0
+    let dt := g.dtype o
+    let zi := g.zp (inId op 0)
+    let za := g.zp (inId op 1)
+    let f := fun (x y : Int) =>
+      let iv := x - zi
+      let v := if iv ≥ 0 then mbqm iv (pI op 0 0) (pI op 0 1) else mbqm (iv * (y - za)) (pI op 0 2) (pI op 0 3)
+      clamp (v + g.zp o) dt.lo dt.hi
+    return [← binary a al f]
+  | "ABS" =>
+    -- params: needs_rescale, multiplier, shift (input_scale / output_scale as float)
+    let a ← getIn env op 0
+    let o := outId op 0
+    let dt := g.dtype o
+    let zi := g.zp (inId op 0)
+    return [unary a fun v =>
+      let x := if v - zi ≥ 0 then v - zi else zi - v
+      clamp ((if pI op 0 0 = 1 then mbqm x (pI op 0 1) (pI op 0 2) else x) + g.zp o) dt.lo dt.hi]
+  | "ARG_MAX" =>
+    -- params: axis (resolved). Index of the first largest element along the axis (reference_ops::ArgMinMax with std::greater)
+    let a ← getIn env op 0
+    let axis := pN op 0 0
+    let r := a.shape.length
+    if axis ≥ r then throw "arg_max: axis"
+    let d := a.shape.getD axis 0
+    if d = 0 then throw "arg_max: empty axis"
+    let oshape := a.shape.eraseIdx axis
+    let n := prod oshape
+    let mut out : Array Int := Array.mkEmpty n
+    for i in [0:n] do
+      let co := unflatten oshape i
+      let elemAt := fun (k : Nat) => a.data.getD (flatten a.shape ((co.take axis) ++ [k] ++ (co.drop axis))) 0
+      let best := (List.range d).foldl (fun (acc : Nat × Int) k => if elemAt k > acc.2 then (k, elemAt k) else acc) (0, elemAt 0)
+      out := out.push (best.1 : Int)
+    return [{ shape := g.shape (outId op 0), data := out }]
+  | "TRANSPOSE" =>
+    -- params: permutation; output dimension i is input dimension perm[i]
+    let a ← getIn env op 0
+    let perm := (grp op 0).map Int.toNat
+    let r := a.shape.length
+    if perm.length ≠ r ∨ perm.any (· ≥ r) ∨ (List.range r).any (fun k => !perm.contains k) then throw "transpose: permutation"
+    let oshape := perm.map fun p => a.shape.getD p 0
+    let n := prod oshape
+    let mut out : Array Int := Array.mkEmpty n
+    for i in [0:n] do
+      let co := unflatten oshape i
+      -- input coordinate at dimension perm[k] = output coordinate k
+      let ci := (List.range r).map fun dIn => match perm.idxOf? dIn with | some k => co.getD k 0 | none => 0
+      out := out.push (a.data.getD (flatten a.shape ci) 0)
+    return [{ shape := oshape, data := out }]
+  | "EXP" =>
+    let a ← getIn env op 0
+    let i := inId op 0
+    let o := outId op 0
+    let dt := g.dtype o
+    if dt.bytes ≠ 1 then throw "unsupported:EXP:type"
+    match g.scales i, g.scales o with
+    | [si], [so] => return [unary a (realActivation Float.exp (f32ToFloat si) (f32ToFloat so) (g.zp i) (g.zp o) dt.lo dt.hi)]
+    | _, _ => throw "unsupported:EXP:quantisation"
+  | "HARD_SWISH" =>
+    -- params: output multiplier (int16), output exponent, reluish multiplier (int16), reluish exponent
+    let a ← getIn env op 0
+    let o := outId op 0
+    let dt := g.dtype o
+    if dt.bytes ≠ 1 then throw "unsupported:HARD_SWISH:type"
+    return [unary a (Gemmlowp.hardSwishRef dt.lo dt.hi (g.zp (inId op 0)) (g.zp o) (pI op 0 0) (pI op 0 1) (pI op 0 2) (pI op 0 3))]
+  | "SOFTMAX" =>
+    -- params: input multiplier, left shift, diff_min, beta (float32 bits); rows = innermost dimension
+    let a ← getIn env op 0
+    let dt := g.dtype (outId op 0)
+    if g.dtype (inId op 0) != dt ∨ dt.bytes > 2 then throw "unsupported:SOFTMAX:type"
+    let depth := a.shape.getLastD 1
+    if depth = 0 ∨ a.data.size % depth ≠ 0 then throw "softmax: shape"
+    let expLut := if dt.bytes = 2 then SoftmaxKernel.expLut16 else #[]
+    let ooLut := if dt.bytes = 2 then SoftmaxKernel.oneOverOnePlusXLut16 else #[]
+    let mut out : Array Int := Array.mkEmpty a.data.size
+    for r in [0:a.data.size / depth] do
+      let row := (List.range depth).map fun c => a.data.getD (r * depth + c) 0
+      let res := if dt.bytes = 2 then SoftmaxKernel.softmaxRow16 expLut ooLut row (pI op 0 0) (pI op 0 1)
+                 else SoftmaxKernel.softmaxRow8 row (pI op 0 0) (pN op 0 1) (pI op 0 2) dt.lo dt.hi
+      for v in res do
+        out := out.push v
+    return [{ shape := a.shape, data := out }]
   | "RESHAPE" | "SQUEEZE" | "EXPAND_DIMS" =>
     let a ← getIn env op 0
     let os := g.shape (outId op 0)
     if prod os ≠ a.data.size then throw s!"{op.kind}: element count"
     return [{ shape := os, data := a.data }]
   | "CONCATENATION" =>
-    let ts ← (List.range op.ins.length).mapM fun k => getIn env op k
+    -- an input whose quantisation differs from the output's is requantised: round((x - zp_i) * s_i / s_o) + zp_o
+    -- (`ConcatenationWithScaling` of the uint8 kernel; the signed kernels demand equal parameters)
+    let o := outId op 0
+    let dt := g.dtype o
+    let ts ← (List.range op.ins.length).mapM fun k => do
+      let t ← getIn env op k
+      let i := inId op k
+      if g.scales i == g.scales o ∧ g.zp i == g.zp o then pure t else
+      match g.scales i, g.scales o with
+      | [si], [so] =>
+        let ratio := f32ToFloat si / f32ToFloat so
+        pure (unary t fun v => clamp ((Float.round (Float.ofInt (v - g.zp i) * ratio)).toInt64.toInt + g.zp o) dt.lo dt.hi)
+      | _, _ => throw "unsupported:CONCATENATION:quantisation"
     return [← concat ts (pN op 0 0)]
   | "SPLIT" =>
     -- inputs: axis tensor, value; params: axis, count
@@ -653,14 +803,23 @@ def evalOp (g : Graph) (env : Env) (op : OpDef) : Except String (List Tensor) :=
     (List.range num).mapM fun k =>
       slice a ((List.replicate a.shape.length 0).set axis (k * part)) (a.shape.set axis part)
   | "STRIDED_SLICE" =>
-    -- params: group 0 = begin, group 1 = end (already resolved, stride 1)
+    -- params: group 0 = begin, group 1 = end (already resolved), group 2 = strides (absent = 1)
     let a ← getIn env op 0
     let b := (grp op 0).map Int.toNat
     let e := (grp op 1).map Int.toNat
-    let sl ← slice a b ((e.zip b).map fun (x, y) => x - y)
+    let st := if (grp op 2).isEmpty then b.map (fun _ => 1) else (grp op 2).map Int.toNat
+    let r := a.shape.length
+    if b.length ≠ r ∨ e.length ≠ r ∨ st.length ≠ r ∨ st.any (· = 0) then throw "strided_slice: rank"
+    if ((b.zip e).zip a.shape).any (fun ((x, y), d) => y ≤ x ∨ y > d) then throw "strided_slice: range"
+    let size := ((b.zip e).zip st).map fun ((x, y), s) => (y - x + s - 1) / s
+    let n := prod size
+    let mut out : Array Int := Array.mkEmpty n
+    for i in [0:n] do
+      let co := unflatten size i
+      out := out.push (a.data.getD (flatten a.shape (((co.zip b).zip st).map fun ((c, x), s) => x + c * s)) 0)
     let os := g.shape (outId op 0)
-    if prod os ≠ sl.data.size then throw "strided_slice: element count"
-    return [{ shape := os, data := sl.data }]
+    if prod os ≠ out.size then throw "strided_slice: element count"
+    return [{ shape := os, data := out }]
   | "PAD" =>
     let a ← getIn env op 0
     let ps := (grp op 0).map Int.toNat
@@ -731,6 +890,27 @@ def verifyParams (g : Graph) (op : OpDef) : Except String Unit := do
     let bits16 := g.dtype o == .i16
     if pN op 0 2 ≠ (if bits16 then 15 else 20) then throw "reference parameter mismatch for ADD/SUB left shift"
     actCheck (pI op 0 0) (pI op 0 1) (pN op 0 9)
+  | "PRELU" =>
+    let si ← g.scale1 (inId op 0)
+    let sa ← g.scale1 (inId op 1)
+    let so ← g.scale1 o
+    expectEq "PRELU identity multiplier" (some (pI op 0 0, pI op 0 1)) (qmRatioFloat si so)
+    expectEq "PRELU alpha multiplier" (some (pI op 0 2, pI op 0 3)) (qmMulFloat si sa so)
+  | "ABS" =>
+    let si ← g.scale1 (inId op 0)
+    let so ← g.scale1 o
+    if (pI op 0 0 = 1) ≠ (si ≠ so) then throw "reference parameter mismatch for ABS needs_rescale"
+    if si ≠ so then expectEq "ABS multiplier" (some (pI op 0 1, pI op 0 2)) (qmRatioFloat si so)
+  | "SQUARED_DIFFERENCE" =>
+    let dt := g.dtype o
+    if pN op 0 2 ≠ (if dt == .i16 then 0 else 7) ∨ pI op 0 0 ≠ dt.lo ∨ pI op 0 1 ≠ dt.hi then
+      throw "reference parameter mismatch for SQUARED_DIFFERENCE left shift / range"
+    match qmSquaredDifference (← g.scale1 (inId op 0)) (← g.scale1 (inId op 1)) (← g.scale1 o) (pN op 0 2) with
+    | none => throw "unsupported:scale_outside_normal_range:squared_difference"
+    | some (a, b, c) =>
+      expectEq "SQUARED_DIFFERENCE input 1 multiplier" (some (pI op 0 3, pI op 0 4)) (some a)
+      expectEq "SQUARED_DIFFERENCE input 2 multiplier" (some (pI op 0 5, pI op 0 6)) (some b)
+      expectEq "SQUARED_DIFFERENCE output multiplier" (some (pI op 0 7, pI op 0 8)) (some c)
   | "MUL" =>
     expectEq "MUL multiplier" (some (pI op 0 2, pI op 0 3)) (qmMulFloat (← g.scale1 (inId op 0)) (← g.scale1 (inId op 1)) (← g.scale1 o))
     actCheck (pI op 0 0) (pI op 0 1) (pN op 0 4)
@@ -739,6 +919,33 @@ def verifyParams (g : Graph) (op : OpDef) : Except String Unit := do
     actCheck (pI op 0 0) (pI op 0 1) (if op.kind == "RELU" then 1 else if op.kind == "RELU6" then 3 else 2)
   | "QUANTIZE" =>
     expectEq "QUANTIZE multiplier" (some (pI op 0 0, pI op 0 1)) (qmRatioDouble (← g.scale1 (inId op 0)) (← g.scale1 o))
+  | "HARD_SWISH" =>
+    -- hires_input_scale = (1/128) * input_scale; output multiplier = hires / output_scale; reluish multiplier =
+    -- hires / (3/32768): float32 arithmetic, QuantizeMultiplier, DownScaleInt32ToInt16Multiplier
+    let (mi, ei) ← match f32Decode (← g.scale1 (inId op 0)) with | some x => pure x | none => throw "unsupported:scale_outside_normal_range:hard_swish"
+    let (mo, eo) ← match f32Decode (← g.scale1 o) with | some x => pure x | none => throw "unsupported:scale_outside_normal_range:hard_swish"
+    let down := fun (m : Int) => if m ≥ 2147483647 - 32768 then (32767 : Int) else (m + 32768) / 65536
+    let q := fun (num den : Nat) (e : Int) => (roundTo 24 num den e).map fun (m, e') => quantizeMultiplierOf 24 m e'
+    match q mi mo (ei - 7 - eo), q mi 3 (ei - 7 + 15) with
+    | some (om, oe), some (rm, re) =>
+      if oe > 0 then throw "unsupported:HARD_SWISH:output_multiplier_exponent" else
+      expectEq "HARD_SWISH output multiplier" (some (pI op 0 0, pI op 0 1)) (some (down om, oe))
+      expectEq "HARD_SWISH reluish multiplier" (some (pI op 0 2, pI op 0 3)) (some (down rm, re))
+    | _, _ => throw "unsupported:scale_outside_normal_range:hard_swish"
+  | "SOFTMAX" =>
+    -- the 8-bit kernels require the output quantisation 1/256 with zero point = lowest value of the type
+    let so ← g.scale1 o
+    if (g.dtype o).bytes = 2 then
+      -- int16: output scale 1/32768, zero points 0
+      if so ≠ 0x38000000 ∨ g.zp o ≠ 0 ∨ g.zp (inId op 0) ≠ 0 then throw "unsupported:SOFTMAX:output_quantisation"
+      expectEq "SOFTMAX int16 input multiplier" (some (pI op 0 0, pI op 0 1)) (SoftmaxKernel.softmaxParams16 (pN op 0 3) (← g.scale1 (inId op 0)))
+    else
+    if so ≠ 0x3B800000 ∨ g.zp o ≠ (g.dtype o).lo then throw "unsupported:SOFTMAX:output_quantisation"
+    match SoftmaxKernel.softmaxParams8 (pN op 0 3) (← g.scale1 (inId op 0)) with
+    | none => throw "unsupported:scale_outside_normal_range:softmax"
+    | some (m, s, d) =>
+      expectEq "SOFTMAX input multiplier" (some (pI op 0 0, pI op 0 1)) (some (m, s))
+      if pI op 0 2 ≠ d then throw s!"reference parameter mismatch for SOFTMAX diff_min: harness {pI op 0 2}, recomputed {d}"
   | "LEAKY_RELU" =>
     let si ← g.scale1 (inId op 0)
     let so ← g.scale1 o
